@@ -144,6 +144,14 @@ def check(e, texts, stats=None, only=None):
         count("secondary_spans_checked")
         if names[-1] not in IDENT.findall(b):
             out.append(("secondary_span_not_at_named_text", "%s: the use is %r but the text under %s is %r: %s" % (variant, a[:40], pf, b[:40], e[:160])))
+    if variant == "IllegalReturnType":
+        # the type a function may not return stands behind the arrow of its head
+        loc = loc_of(f.get("location"))
+        t = texts.get(loc[0]) if loc else None
+        if t is not None and loc[1] <= len(t):
+            count("secondary_spans_checked")
+            if not t[:loc[1]].rstrip().endswith("->"):
+                out.append(("return_type_error_not_at_the_return_type", "IllegalReturnType is located at %r, which does not follow a `->`: %s" % (t[loc[1]:loc[2]][:30], e[:160])))
     if variant == "VariableDeclarationMayBeSkipped" and (only is None or "goto_order" in only):
         g, d, l = loc_of(f.get("location_of_goto")), loc_of(f.get("location_of_declaration")), loc_of(f.get("location_of_label"))
         if g and d and l and g[0] == d[0] == l[0]:
